@@ -126,3 +126,81 @@ def reset(ctx):
                     why = 'line %d changes the object before it has been re-initialised' % n.lineno
         obs.append(Ob('SA-VBM.reset', 'pycdlib.PyCdlib.%s|re-initialises first' % name, ok, ctx.loc(fi, fi.node), why))
     return obs
+
+
+@rule('SA-VBM.assert')
+@props('C14')
+def assertions(ctx):
+    """PyCdlibInternalError raises are excluded from SA-VBM as "cannot happen".  For those whose governing
+    condition speaks only about the call's own arguments and the image's configuration (`x is None` /
+    truthiness of a parameter or of a self attribute that the method does not assign) that belief has to be
+    established by the method itself: some earlier refusal (if ...: raise PyCdlibInvalidInput) must test
+    conditions that all hold whenever the assertion's condition holds.  Otherwise an argument value exists
+    that passes the refusals, lets the method change the image and then dies in the assertion."""
+    from .. import expand as ex
+    from .keyident import _normfact
+    from ..engine import raises_class
+    e = run_engine(ctx)
+    obs = []
+    n_seen = 0
+    for fi in public_mutators(ctx, e):
+        params = set(p.lstrip('*') for p in fi.params[1:])
+        assigned_self = set()
+        for n in ctx.own_nodes(fi):
+            if isinstance(n, (ast.Assign, ast.AugAssign)):
+                for t in (n.targets if isinstance(n, ast.Assign) else [n.target]):
+                    if isinstance(t, ast.Attribute) and isinstance(t.value, ast.Name) and t.value.id == 'self':
+                        assigned_self.add(t.attr)
+        refusals = []
+        for n in ctx.own_nodes(fi):
+            if isinstance(n, ast.If) and n.body and isinstance(n.body[-1], ast.Raise) and raises_class(n.body[-1]) == 'PyCdlibInvalidInput':
+                facts = set()
+                for test, pol, at in ex.conditions(ctx, fi, n.body[-1], True):
+                    for t, p in ex.conjuncts(test, pol):
+                        facts.add(_normfact(t, p))
+                refusals.append((n, facts))
+
+        def arg_only(t):
+            for sub in ast.walk(t):
+                if isinstance(sub, ast.Call):
+                    return False
+                if isinstance(sub, ast.Name) and sub.id not in params and sub.id not in ('self', 'None'):
+                    return False
+                if isinstance(sub, ast.Attribute) and not (isinstance(sub.value, ast.Name) and sub.value.id == 'self' and sub.attr not in assigned_self):
+                    return False
+            return True
+
+        for n in ctx.own_nodes(fi):
+            if not (isinstance(n, ast.Raise) and raises_class(n) == 'PyCdlibInternalError'):
+                continue
+            conds = []
+            for test, pol, at in ex.conditions(ctx, fi, n, True):
+                for t, p in ex.conjuncts(test, pol):
+                    conds.append((t, p))
+            if not conds or not all(arg_only(t) for t, p in conds):
+                continue
+            # something of the image has been touched before?  (a call into the package or a store to self earlier in the body)
+            touched = False
+            g = ctx.cfg(fi)
+            rn = g.node_of(n)
+            for m in ctx.own_nodes(fi):
+                if isinstance(m, ast.Call) and isinstance(m.func, ast.Attribute) and isinstance(m.func.value, ast.Name) and m.func.value.id == 'self' \
+                        and m.func.attr.startswith(('_add', '_rm', '_remove', '_create', '_update', '_finish')):
+                    mn = g.node_of(ctx.enclosing_stmt(fi, m))
+                    if mn is not None and rn is not None and mn is not rn and rn.id in g.reachable(mn):
+                        touched = True
+            if not touched:
+                continue
+            n_seen += 1
+            F = set(_normfact(t, p) for t, p in conds)
+            covered = [r for r, facts in refusals if facts and facts <= F and r.lineno < n.lineno]
+            key = '%s|%s' % (fi.qual, norm(n)[:90])
+            obs.append(Ob('SA-VBM.assert', key, bool(covered), ctx.loc(fi, n),
+                          '' if covered else '%s raises PyCdlibInternalError when %s, after it has already changed the image, and no earlier refusal of the method tests '
+                          'exactly that (the refusals test %s): an argument that slips past them is applied half-way and then hits the assertion'
+                          % (fi.name, ' and '.join(('' if p else 'not ') + '(%s)' % t for t, p in sorted(F)),
+                             '; '.join(sorted(' and '.join(('' if p else 'not ') + t for t, p in sorted(f)) for r, f in refusals if f & set((t, q) for t, q in F) or
+                                              any(t2.split(' ')[0] in ' '.join(x for x, _ in F) for t2, _ in f))[:3]) or 'nothing comparable')))
+    if n_seen < 1:
+        raise AnalysisError('anchor-vanished: argument-only assertions after mutation in public methods (%d)' % n_seen)
+    return obs
